@@ -56,4 +56,26 @@ example : (run true [7] (init (fun f => if f = 7 then some ⟨true, true, 1, tru
       (fun s => (s.committed, s.deleted)) = some ([7], []) := by
   decide
 
+/-! ### a transaction that STARTS during the run and adopts an old pre-built file (open finding) -/
+
+/-- an old pre-built file nobody owns yet -/
+def prebuiltOrphan : Nat → Option FileSt := fun f => if f = 7 then some ⟨true, false, 0, true, false⟩ else none
+
+/-- **late_adoption_refuted** (open finding, the code as it is) — the collector reads the markers and the metadata; THEN transaction 1
+queues the old pre-built file 7 (marker registered now) and commits; the collector's sweep finds 7 neither protected nor reachable
+in what it read, and old: the file of a snapshot committed during the run is deleted. The hypothesis of `gc_concurrent_safe` that
+excludes this is that transactions register FRESH files (`txMarker` on a name not yet on storage). -/
+theorem late_adoption_refuted :
+    ((run true [7] (init prebuiltOrphan []) [(9, .gcReadMarkers), (9, .gcReadMeta)]).bind fun s =>
+      (adopt s 1 7).bind fun s => run true [7] s [(1, .txFlip), (9, .gcDelete 7), (1, .txFinish), (9, .gcFinish)]).map
+      (fun s => (s.committed, s.deleted)) = some ([7], [7]) := by
+  decide
+
+/-- the same adoption BEFORE the collector reads the markers is safe: the marker protects the file until the commit makes it reachable -/
+example :
+    ((adopt (init prebuiltOrphan []) 1 7).bind fun s =>
+      run true [7] s [(9, .gcReadMarkers), (9, .gcReadMeta), (1, .txFlip), (9, .gcDelete 7), (1, .txUnmark 7), (1, .txFinish), (9, .gcFinish)]).map
+      (fun s => (s.committed, s.deleted)) = some ([7], []) := by
+  decide
+
 end DSV.GcRace
